@@ -1558,7 +1558,9 @@ impl<'p> Harness<'p> {
         }
         // sibling subscriptions of the same observer may or may not run before this one (hash
         // order): the oracle only forbids a callback *after* the disallow (log order)
-        if crate::choice::dv() >= 2 && ch.flag(1, 6) {
+        // (at most one such subscription per case: the ids of observers created by several handlers
+        // in one round would depend on the engine's hash order of handlers)
+        if crate::choice::dv() >= 2 && ch.flag(1, 6) && !self.subs.iter().any(|s| s.acts.iter().any(|a| matches!(a, HAct::ObserveNew(_)))) {
             // only nodes that do not depend on bind-created nodes: such an observer can be linked at
             // any later stabilise whatever else is (not) needed then
             let ln: Vec<usize> = self.live_nodes().into_iter().filter(|i| !self.model.node(self.nodes[*i].tag).inner_tainted).collect();
